@@ -3,7 +3,6 @@
 // harness: k_line_expand props=C10,C02 fns=Line::expand kind=bounded tier=quick timeout=600 obligation=Line::expand/E1 bound="width <= 2 expanded to <= 3, symbolic pen flag"
 // harness: k_line_contract_1 props=C10 fns=Line::trailers kind=bounded tier=thorough timeout=900 obligation="Line::contract(no cell lost or invented; only trailing default cells of an unwrapped row dropped)" bound="row width 1..3 contracted to 1"
 // harness: k_line_contract_2 props=C10 fns=Line::trailers kind=bounded tier=thorough timeout=900 obligation=Line::contract bound="row width 1..3 contracted to 2"
-// harness: k_line_extend_2 props=C10 fns=Line::trailers,Line::expand kind=bounded tier=thorough timeout=1800 obligation="Line::extend(join of the two rows is kept cell for cell; only trailing default cells of a row that ends its logical line are dropped)" bound="row of width 0..2 extended to 2 from a row of width 1..2"
 #[cfg(kani)]
 mod verif_kani_line {
     use super::*;
@@ -271,19 +270,5 @@ mod verif_kani_line {
         }
     }
 
-    #[kani::proof]
-    #[kani::unwind(6)]
-    fn k_line_extend_2() {
-        let which: u8 = kani::any();
-        match which % 6 {
-            0 => extend_case(0, 1, 2),
-            1 => extend_case(0, 2, 2),
-            2 => extend_case(1, 1, 2),
-            3 => extend_case(1, 2, 2),
-            4 => extend_case(2, 1, 2),
-            _ => extend_case(2, 2, 2),
-        }
-        kani::cover!(which % 6 == 5);
-    }
 
 }
